@@ -285,14 +285,18 @@ func (fr *Frame) applyContract(ct *Contract, key string, sig *types.Signature, f
 			u.bindErrors = append(u.bindErrors, fmt.Sprintf("contract %s modifies: %v", key, err))
 			everything = true
 		}
+		a := u.fresh("alloc", SInt)
+		u.assume(True, Ge(a, pre.alloc))
+		post.alloc = a
 		if everything {
 			u.nsym++
 			post.epoch = 1000000 + u.nsym
 			post.heaps = map[string]Term{}
 			post.layer = nil
+			u.epochAlloc[post.epoch] = a
 		} else {
 			// new layer: untouched heaps agree on old objects
-			post.layer = &heapLayer{prevHeaps: pre.heaps, prevEpoch: pre.epoch, prevLayer: pre.layer, allocOld: pre.alloc}
+			post.layer = &heapLayer{prevHeaps: pre.heaps, prevEpoch: pre.epoch, prevLayer: pre.layer, allocOld: pre.alloc, allocNew: a}
 			post.heaps = map[string]Term{}
 			byKey := map[string][]footprint{}
 			var order []string
@@ -314,12 +318,10 @@ func (fr *Frame) applyContract(ct *Contract, key string, sig *types.Signature, f
 				}
 				conds = append(conds, Le(Obj(l), pre.alloc))
 				u.assume(True, Forall([]Term{l}, Implies(And(conds...), Eq(Select(h, l, vs), Select(old, l, vs))), []Term{Select(h, l, vs)}))
+				u.heapWF(h, vs, a)
 				post.heaps[k] = h
 			}
 		}
-		a := u.fresh("alloc", SInt)
-		u.assume(True, Ge(a, pre.alloc))
-		post.alloc = a
 	}
 	// lock post-state
 	for _, h := range ct.HeldPost {
@@ -331,6 +333,21 @@ func (fr *Frame) applyContract(ct *Contract, key string, sig *types.Signature, f
 		}
 		mode := map[string]int64{"w": 2, "r": 1, "none": 0}[h.Mode]
 		post.held = u.define("held", Store(post.held, m.t, IntLit(mode)))
+	}
+	// closures passed to the callee are invoked zero or more times
+	if len(closures) > 0 {
+		off := 0
+		if recvType != nil {
+			off = 1
+		}
+		for i := 0; i < len(pn); i++ {
+			if mc, ok := closures[i-off]; ok && i-off >= 0 {
+				post = fr.runCallbackLoop(mc, ct, pn[i], post, pos, key)
+				if post == nil {
+					return nil, nil
+				}
+			}
+		}
 	}
 	res := fr.freshResults(sig.Results(), post, "ret")
 	for k, v := range resultNames(sig, res) {
@@ -356,11 +373,22 @@ func (u *Unit) verifyRoot() {
 	st := &State{pc: True, heaps: map[string]Term{}, ghost: map[string]Term{}, env: map[string]envEntry{}, defers: [][]deferred{nil}}
 	st.alloc = u.fresh("alloc0", SInt)
 	u.assume(True, Ge(st.alloc, IntLit(0)))
+	u.epochAlloc[0] = st.alloc
 	st.held = u.fresh("held0", ArraySort(SLoc, SInt))
 	for _, p := range fn.Params {
 		t := u.declareOnce("p:"+p.Name(), u.w.sortOf(p.Type()))
 		fr.regs[p] = t
 		fr.assumeTypeInv(st, t, p.Type())
+	}
+	if fn.Signature.Recv() != nil && len(fn.Params) > 0 {
+		// methods are only ever invoked on non-nil receivers: implicit precondition, checked at every static call site
+		r := fr.regs[fn.Params[0]]
+		switch r.Sort {
+		case SLoc:
+			if _, isPtr := fn.Params[0].Type().Underlying().(*types.Pointer); isPtr {
+				u.assume(True, Neq(r, NilLoc))
+			}
+		}
 	}
 	for _, fv := range fn.FreeVars {
 		t := u.declareOnce("fv:"+fv.Name(), u.w.sortOf(fv.Type()))
@@ -501,4 +529,150 @@ func (fr *Frame) checkFrame(ct *Contract, end *State, names map[string]tval) {
 		conds = append(conds, Le(Obj(l), fr.entry.alloc))
 		u.oblige(fr, "frame", fr.fn.Pos(), "only the declared footprint of "+k+" changes", And(append([]Term{end.pc}, conds...)...), Eq(Select(cur, l, vs), Select(old, l, vs)), false)
 	}
+}
+
+// runCallbackLoop models a callee that invokes the closure mc zero or more times (iterators, walkers):
+// the closure body is verified like a loop body against the caller's "callback <name> invariant" clauses,
+// under the callee's assumptions about the callback arguments ("callback <param> assume ...").
+func (fr *Frame) runCallbackLoop(mc *ssa.MakeClosure, calleeCt *Contract, paramName string, st *State, pos token.Pos, calleeKey string) *State {
+	u := fr.u
+	fn := mc.Fn.(*ssa.Function)
+	if !u.canInline(fn, true) {
+		u.note("callback %s passed to %s cannot be executed in context", fn.Name(), calleeKey)
+		_, st2 := fr.unknownCall("callback "+fn.Name(), types.NewTuple(), st, pos)
+		return st2
+	}
+	var binds []Term
+	for _, b := range mc.Bindings {
+		binds = append(binds, fr.val(b))
+	}
+	// invariants declared by the caller for this closure
+	var invs []Clause
+	if fr.contract != nil {
+		cname := fn.Name()
+		if i := strings.LastIndex(cname, "$"); i >= 0 {
+			cname = cname[i:]
+		}
+		for _, key := range []string{cname, fr.closureVarName(mc)} {
+			if key == "" {
+				continue
+			}
+			if cb := fr.contract.Callbacks[key]; cb != nil {
+				invs = append(invs, cb.Invariants...)
+			}
+		}
+	}
+	var assumes []Clause
+	if calleeCt != nil && calleeCt.Callbacks != nil {
+		if cb := calleeCt.Callbacks[paramName]; cb != nil {
+			assumes = cb.Invariants
+		}
+	}
+	// one symbolic invocation
+	invoke := func(s *State, keepObls bool) []Exit {
+		child := &Frame{u: u, fn: fn, key: funcKey(fn), regs: map[ssa.Value]Term{}, tuples: map[ssa.Value][]Term{}, depth: fr.depth + 1,
+			parent: fr, guardedVals: map[ssa.Value]guardedVal{}, mc: mc, mcFrame: fr}
+		child.contract = u.cs.ByKey[child.key]
+		names := map[string]tval{}
+		s = s.clone()
+		// callbacks may receive objects allocated by the callee
+		a := u.fresh("alloc", SInt)
+		u.assume(True, Ge(a, s.alloc))
+		allocBefore := s.alloc
+		s.layer = &heapLayer{prevHeaps: s.heaps, prevEpoch: s.epoch, prevLayer: s.layer, allocOld: allocBefore, allocNew: a}
+		s.heaps = map[string]Term{}
+		s.alloc = a
+		for i, p := range fn.Params {
+			t := u.fresh("cbarg", u.w.sortOf(p.Type()))
+			child.regs[p] = t
+			child.assumeTypeInv(s, t, p.Type())
+			names[fmt.Sprintf("arg%d", i)] = tval{t: t, ty: p.Type()}
+			names[p.Name()] = tval{t: t, ty: p.Type()}
+		}
+		for i, fv := range fn.FreeVars {
+			if i < len(binds) {
+				child.regs[fv] = binds[i]
+			}
+		}
+		pre := &State{alloc: allocBefore}
+		for _, c := range assumes {
+			ctx := fr.newEvalCtx(s, pre, names)
+			v, err := ctx.eval(c.E)
+			if err != nil || v.t.Sort != SBool {
+				u.bindErrors = append(u.bindErrors, fmt.Sprintf("contract %s callback %s assume %q: %v", calleeKey, paramName, c.Text, err))
+				continue
+			}
+			u.assume(s.pc, v.t)
+		}
+		u.inlined[child.key]++
+		u.inlineStack = append(u.inlineStack, fn)
+		s.defers = append(s.defers, nil)
+		savedEnv := s.env
+		s.env = map[string]envEntry{}
+		child.entry = s.clone()
+		exits := child.run(s)
+		u.inlineStack = u.inlineStack[:len(u.inlineStack)-1]
+		for _, e := range exits {
+			e.st.defers = e.st.defers[:len(e.st.defers)-1]
+			e.st.env = savedEnv
+		}
+		return exits
+	}
+	// invariants on entry
+	for _, c := range invs {
+		t, err := fr.evalBool(c.E, st, fr.entry)
+		if err != nil {
+			u.bindErrors = append(u.bindErrors, fmt.Sprintf("%s callback invariant %q: %v", fr.key, c.Text, err))
+			continue
+		}
+		u.oblige(fr, "cb-inv-entry", pos, fmt.Sprintf("callback %s: %s", fn.Name(), c.Text), st.pc, t, false)
+	}
+	// effects of one invocation
+	eff := fr.discoverEffects(func(sub edgeMap) {
+		for _, e := range invoke(st, false) {
+			sub[edgeKey{nil, nil}] = append(sub[edgeKey{nil, nil}], inEdge{nil, e.st, nil})
+		}
+	}, st, fr, nil, true)
+	stH := st.clone()
+	fr.applyHavoc(stH, st, eff)
+	for _, c := range invs {
+		t, err := fr.evalBool(c.E, stH, fr.entry)
+		if err != nil {
+			continue
+		}
+		u.assume(stH.pc, t)
+	}
+	exits := invoke(stH, true)
+	for _, e := range exits {
+		for _, c := range invs {
+			t, err := fr.evalBool(c.E, e.st, fr.entry)
+			if err != nil {
+				u.bindErrors = append(u.bindErrors, fmt.Sprintf("%s callback invariant %q: %v", fr.key, c.Text, err))
+				continue
+			}
+			u.oblige(fr, "cb-inv-preserved", pos, fmt.Sprintf("callback %s: %s", fn.Name(), c.Text), e.st.pc, t, false)
+		}
+		u.oblige(fr, "loop-balance", pos, fmt.Sprintf("callback %s: locks held when the callback returns equal those at its start", fn.Name()), e.st.pc, Eq(e.st.held, stH.held), true)
+	}
+	// after the iteration: any number of invocations happened; the state satisfies the invariant
+	return stH
+}
+
+// closureVarName finds the source variable a closure value is bound to (e.g. addRow := func...).
+func (fr *Frame) closureVarName(mc *ssa.MakeClosure) string {
+	refs := mc.Referrers()
+	if refs == nil {
+		return ""
+	}
+	for _, r := range *refs {
+		if d, ok := r.(*ssa.DebugRef); ok && d.Object() != nil {
+			return d.Object().Name()
+		}
+		if s, ok := r.(*ssa.Store); ok {
+			if al, ok := s.Addr.(*ssa.Alloc); ok && al.Comment != "" {
+				return al.Comment
+			}
+		}
+	}
+	return ""
 }
